@@ -853,6 +853,7 @@ def matrix_inverse_pth_root(
     error = jnp.array(0, jnp.float32)
     iters = 0
     error_ratio = 0.0
+    total_retries = 0
   else:
 
     retry_loop_error_threshold = 0.05
@@ -1841,13 +1842,12 @@ def unbatch(batched_values):
   b1, b2 = batched_values.shape[0], batched_values.shape[1]
   results = []
   for v_array in jnp.split(batched_values, indices_or_sections=b1, axis=0):
-    v_array = jnp.squeeze(v_array)
+    # Only drop the two batching axes: a bare squeeze would also collapse 1x1
+    # statistics/preconditioners to scalars.
+    v_array = jnp.squeeze(v_array, axis=0)
     # b2 = batches (number of preconditioner computation) per core.
-    if b2 > 1:
-      for v in jnp.split(v_array, indices_or_sections=b2, axis=0):
-        results.append(jnp.squeeze(v))
-    else:
-      results.append(v_array)
+    for v in jnp.split(v_array, indices_or_sections=b2, axis=0):
+      results.append(jnp.squeeze(v, axis=0))
   return results
 
 
